@@ -902,7 +902,7 @@ def check_simplex_model(ctx, simplex, systems, label):
                 qs.append(["le", [[100 + i, -c] for i, c in enumerate(r[:-1]) if c != 0], r[-1]])
         lines.append(sexp.dumps(["simplex", SIMPLEX_FUEL, qs]))
     out = ctx.lean_driver(EXE, lines) if lines else []
-    # monitor of the one hypothesis the termination theorem still assumes (BlandNoRepeat): on the model,
+    # monitor of the no-repeat theorem (check_no_repeat_bland, proved in Lean for states with the invariant): on the model,
     # which is compared with the real code step by step here, no configuration repeats within a check()
     mon = ctx.lean_driver(EXE, [l.replace("(simplex ", "(norepeat ", 1) for l in lines]) if lines else []
     if mon is not None:
@@ -1585,7 +1585,7 @@ def run(ctx):
         "simplex.py are modelled by order-independent folds (update over all rows, greatest violated basic variable)"]
     ctx.assumptions += [
         "simplex theorems are about the model of Simplex (fixes C16-2 included) under InputOK: each constraint mentions a variable once, "
-        "problem variables numbered above the slack variables; termination of check() is not proved (fuel)",
+        "problem variables numbered above the slack variables; termination of each check() is proved (check_terminates_bland), the whole-run theorems are stated for every fuel",
         "omega_contr_sound / omega_sat_sound are about the model of solve_matrix with fix C16-1, for matrices whose rows have one width; "
         "the model is tied to the code by translation of the two combine functions and by differential runs",
         "the simplex algorithm is not modelled; its answers are judged per run by verified certificate checkers, Z3 and brute force",
@@ -1730,11 +1730,11 @@ MANIFEST = {
             "count, returned mapping): branch_covers_integers, bb_sat_sound (a returned mapping is an integer solution of the original "
             "constraints), bb_unsat_sound_partial (the loop ending with an empty queue means there is no integer solution - only for runs "
             "within the node budget in which no check() hits the fuel; other exceptions inside a node, which the bare except would also "
-            "treat as 'infeasible', are not modelled: none occurs, the harness counts them). All for every fuel: termination of check is NOT proved in Lean. The pinned code (last violated basic variable, first "
+            "treat as 'infeasible', are not modelled: none occurs, the harness counts them). All for every fuel; termination of check IS proved (see below). The pinned code (last violated basic variable, first "
             "suitable non-basic one) does cycle: a search over 3.3 million random degenerate systems found inputs on which handle_assertion "
             "never returns (one with 4 variables and 8 rows); fix C16-5 makes the choice Bland's rule, the model follows it, a confirmed "
             "time-out of handle_assertion is now a violation (simplex:nontermination), and 1.4 million further random systems showed no cycle "
-            "with the fix; the outcome 'fuel' of the model claims nothing. NOT modelled / not proved: termination of branch_and_bound "
+            "with the fix (and termination under the fixed rule is now a Lean theorem, check_terminates_bland); the outcome 'fuel' of the model claims nothing. NOT modelled / not proved: termination of branch_and_bound "
             "(node budget; 'gave up' is no answer); of simplex_strict only the delta-rationals are modelled (Pair.__le__, binary_delta, "
             "multi_delta; own correspondence stream): strict_delta_sound (multi_delta is positive and makes every comparison p1 <= p2 of "
             "pairs true for the rationals x + y*delta) and strict_sat_sound_partial (IF a delta-assignment satisfies all constraints "
@@ -1752,8 +1752,16 @@ MANIFEST = {
             "Termination of check under Bland's rule: check is shown to be the iteration of an explicit step (check_unfolds_step); "
             "configurations (basic / at lower / at upper / elsewhere per variable) are finite with the explicit bound confBound = 4^#occurrences; "
             "check_terminates_of_no_repeat: if no configuration repeats along the run, check answers within confBound+1 steps; "
-            "check_terminates_bland_partial: termination (and fuel independence) for every state with the tableau invariant under the ONE "
-            "named hypothesis BlandNoRepeat (no configuration repeats under Bland's rule - Dutertre/de Moura's argument, NOT proved in Lean; proved only at distance one: bland_no_repeat_adjacent_partial; monitored on every run: no repeat in any check() of the model runs that are compared step by step with the real code); traj_preserves_inv / step_changes_only_entering are ingredients already proved; completeness of the Omega test for exact eliminations was not attempted. In addition every answer of the real Simplex is judged per run: "
+            "check_no_repeat_bland: under Bland's rule (fix C16-5, as modelled by step) NO configuration repeats along a run of check from a state "
+            "with the tableau invariant - Dutertre/de Moura's anti-cycling argument, now PROVED in Lean (bland_core_low/high: the sign contradiction between "
+            "the row with which the largest status-changing variable enters and the state in which it leaves; seg_no_repeat: the bookkeeping over a run segment, "
+            "including the wrap-around case in which the variable enters before it leaves); hence check_terminates_bland (check answers within confBound+1 pivots on every "
+            "state with the invariant and every larger fuel gives the same answer - no hypothesis left) and check_total_correct (with fuel > confBound: SAT with a mapping satisfying rows and "
+            "bounds, or UNSAT and rows + bounds have no rational solution). The model's no-repeat monitor still runs on every model run that is compared step by step with the real code "
+            "(a repeat would now contradict a theorem, i.e. indicate a broken invariant or driver). NOT proved: a fuel-free restatement of the whole-run theorems "
+            "(handle_assertion / run / branch_and_bound take one fuel for all their check() calls; each call terminates by check_terminates_bland, but the uniform bound over the "
+            "successive tableaux was not assembled), termination of branch_and_bound (not part of the property); traj_preserves_inv / step_changes_only_entering / "
+            "repair_step_changes_configuration / bland_leaving_is_smallest are lemmas of the argument kept as pinned theorems; completeness of the Omega test for exact eliminations was not attempted. In addition every answer of the real Simplex is judged per run: "
             "witnesses go through checkWitness(Q), 'unsatisfiable' answers are certified by checkFarkas whenever Farkas multipliers "
             "can be read from the solver's explanation (internal fields; if not, or if they do not check, the verdict is decided by Z3 - only "
             "a wrong verdict is a violation), branch-and-bound / strict verdicts are compared with Z3 and brute force. OmegaHOL "
